@@ -157,7 +157,7 @@ func outcomeKind(o Tok) int {
 	}
 	return -1
 }
-func isOk(o Tok) bool    { return outcomeKind(o) == 0 }
-func isErr(o Tok) bool   { return outcomeKind(o) == 1 }
-func isPanic(o Tok) bool { return outcomeKind(o) == 2 }
+func isOk(o Tok) bool     { return outcomeKind(o) == 0 }
+func isErr(o Tok) bool    { return outcomeKind(o) == 1 }
+func isPanic(o Tok) bool  { return outcomeKind(o) == 2 }
 func okPayload(o Tok) Tok { return o.L[2] }
